@@ -42,6 +42,7 @@ type Contract struct {
 	Loops       map[int]*LoopSpec
 	Flags       map[string]string
 	GhostSets   []GhostSet // ghost assignments performed when the function returns
+	GhostInits  []GhostSet // ghost assignments performed when the function is entered (scratch ghost state)
 	Replay      []string
 	Extern      bool
 	File        string
@@ -118,7 +119,7 @@ var propsRe = regexp.MustCompile(`\[(C[0-9]+(?:\s*,\s*C[0-9]+)*)\]`)
 
 var clauseKeywords = map[string]bool{
 	"requires": true, "ensures": true, "check": true, "modifies": true, "loop": true, "invariant": true,
-	"decreases": true, "replay:": true, "flag": true, "end": true, "ghostset": true,
+	"decreases": true, "replay:": true, "flag": true, "end": true, "ghostset": true, "ghostinit": true,
 }
 var topKeywords = map[string]bool{
 	"func": true, "extern": true, "iface": true, "spec": true, "axiom": true, "lemma": true, "ghost": true,
@@ -337,6 +338,22 @@ func (sp *Specs) ParseFile(path, pkgPath string) error {
 					cur.ModifiesAll = true
 				}
 			}
+		case "ghostinit":
+			// "ghostinit v = e": ghost code at function entry assigns the scratch ghost
+			// variable v; callers see v havocked and need not list it in their frame
+			if cur == nil {
+				return fmt.Errorf("%s:%d: ghostinit outside a func block", path, l.line)
+			}
+			name, rhs, ok := strings.Cut(l.rest, "=")
+			if !ok {
+				return fmt.Errorf("%s:%d: ghostinit v = expr", path, l.line)
+			}
+			e, err := ParseExpr(strings.TrimSpace(rhs))
+			if err != nil {
+				return fmt.Errorf("%s:%d: %v", path, l.line, err)
+			}
+			cur.GhostInits = append(cur.GhostInits, GhostSet{Var: strings.TrimSpace(name), Expr: e, Src: l.rest})
+			curLoop = nil
 		case "ghostset":
 			if cur == nil {
 				return fmt.Errorf("%s:%d: ghostset outside a func block", path, l.line)
